@@ -650,6 +650,38 @@ func genAddTaint(repo, out string) {
 	writeIfChanged(filepath.Join(out, "AddTaint.lean"), b.String())
 }
 
+const pinnedSwapDelete1 = `updatedNode.Spec.Taints[i] = updatedNode.Spec.Taints[len(updatedNode.Spec.Taints)-1]`
+const pinnedSwapDelete2 = `updatedNode.Spec.Taints = updatedNode.Spec.Taints[:len(updatedNode.Spec.Taints)-1]`
+
+// genDelTaint: the skeleton of k8s.DeleteToBeRemovedTaint (pkg/k8s/taint.go)
+func genDelTaint(repo, out string) {
+	f := parse(filepath.Join(repo, "pkg/k8s/taint.go"))
+	var b strings.Builder
+	b.WriteString("/- GENERATED by /verif/extract from /repo/pkg/k8s/taint.go (DeleteToBeRemovedTaint) — do not edit. -/\nimport Esc.Gen.Arith\nnamespace Esc.Gen\n\n")
+	a := &ar{fn: "taintOpFn"}
+	body := "  (true, false, 0) -- not found"
+	if fd := findFunc(f, "DeleteToBeRemovedTaint"); fd != nil && fd.Body != nil {
+		a.atoms = map[string][2]string{}
+		a.callAtoms = map[string][][2]string{
+			"client.CoreV1().Nodes().Get(context.TODO(), node.Name, metav1.GetOptions{})":         {{"getNil", "N"}, {"getErr", "B"}},
+			"client.CoreV1().Nodes().Update(context.TODO(), updatedNode, metav1.UpdateOptions{})": {{"updNil", "N"}, {"updErr", "B"}},
+		}
+		a.callPre = map[string]string{"client.CoreV1().Nodes().Update(context.TODO(), updatedNode, metav1.UpdateOptions{})": "let updateCalled_ : Bool := true"}
+		a.findAtoms = map[string]string{"updatedNode.Spec.Taints|_x.Key == ToBeRemovedByAutoscalerKey": "hasEsc"}
+		// the two statements of "delete without preserving order", word for word: together they set appendedEffect_ (here: the
+		// number of steps of the removal seen) to 2
+		a.assignAtoms = map[string]string{pinnedSwapDelete1: "let appendedEffect_ : Int := (appendedEffect_ + 1)", pinnedSwapDelete2: "let appendedEffect_ : Int := (appendedEffect_ + 1)"}
+		a.markInert(fd.Body.List, map[string]bool{})
+		body = "  let updateCalled_ : Bool := false\n  let appendedEffect_ : Int := 0\n" + a.block(fd.Body.List, env{}, "  ")
+	} else {
+		a.unknown++
+	}
+	b.WriteString("/-- `DeleteToBeRemovedTaint`: (an error is returned, the UPDATE was sent, how many of the two statements of the pinned\n    \"delete the first element with the escalator key by moving the last one into its place\" were seen in front of it). `hasEsc`:\n    the fetched copy carries a taint with the escalator key. -/\n")
+	b.WriteString("def delTaint (getNil getErr hasEsc updNil updErr : Bool) : Bool × Bool × Int :=\n" + body + "\n\n")
+	fmt.Fprintf(&b, "def numDelTaintUnknown : Nat := %d\n\nend Esc.Gen\n", a.unknown)
+	writeIfChanged(filepath.Join(out, "DelTaint.lean"), b.String())
+}
+
 func genReap(repo, out string) {
 	sd := parse(filepath.Join(repo, "pkg/controller/scale_down.go"))
 	var b strings.Builder
